@@ -518,64 +518,10 @@ theorem TInv_cleanupContexts {s : BSt} (hs : TInv s) : TInv (cleanupContexts s) 
   · exact hs
   · exact TInv_go _ _ hs
 
-/-- the state without what the logger clean-up writes besides the cache refresh -/
-def stripL (s : BSt) : BSt :=
-  { s with sinks := [], out := [], log := [], lgs := [], hasInvalidLoggers := false, flags := [], flagLog := [],
-           removalFlags := [] }
-
-theorem reapSinks_stripL (sids : List Nat) : ∀ (s : BSt), stripL (reapSinks s sids) = stripL s := by
-  unfold reapSinks
-  induction sids with
-  | nil => intro s; rfl
-  | cons x xs ih =>
-    intro s
-    simp only [List.foldl_cons]
-    rw [ih]; split <;> rfl
-
-/-- `cleanupLoggers` touches the rest of the state only through the emptiness checks -/
-theorem cleanupLoggers_pres' (P : BSt → Prop) (hAll : ∀ x, P x → P (allEmpty x).1)
-    (hfr : ∀ x y, P x → stripL y = stripL x → P y) (s : BSt) (hs : P s) : P (cleanupLoggers s) := by
-  unfold cleanupLoggers
-  split
-  · exact hs
-  · simp only []
-    have h0 : P { s with hasInvalidLoggers := false } := hfr s _ hs rfl
-    generalize insSorted _ ((List.range ({ s with hasInvalidLoggers := false } : BSt).lgs.length).filter _) = order
-    have hfold : ∀ (l : List Nat) (acc : BSt × List Nat), P acc.1 →
-        P (l.foldl (fun (acc : BSt × List Nat) i =>
-          if (acc.1.lgOf i).valid then acc else
-          if (allEmpty acc.1).2 then
-            (reapSinks ((allEmpty acc.1).1.setLg i (fun l => { l with erased := true })) (acc.1.lgOf i).sinks,
-              acc.2 ++ [(acc.1.lgOf i).gid])
-          else ({ (allEmpty acc.1).1 with hasInvalidLoggers := true }, acc.2)) acc).1 := by
-      intro l
-      induction l with
-      | nil => intro acc h; exact h
-      | cons i rest ih =>
-        intro acc h
-        simp only [List.foldl_cons]
-        apply ih
-        split
-        · exact h
-        · split
-          · exact hfr _ _ (hAll _ h) (by rw [reapSinks_stripL]; rfl)
-          · exact hfr _ _ (hAll _ h) rfl
-    have h1 := hfold order ({ s with hasInvalidLoggers := false }, []) h0
-    revert h1
-    generalize order.foldl _ ({ s with hasInvalidLoggers := false }, ([] : List Nat)) = res
-    intro h1
-    obtain ⟨s1, removed⟩ := res
-    simp only []
-    apply foldl_pres P _ _ _ _ h1
-    intro x gid hx
-    split
-    · exact hfr _ _ hx rfl
-    · exact hx
-
 /-- the logger clean-up leaves the configuration and every failure counter alone -/
-theorem cleanupLoggers_fail (s : BSt) :
-    (cleanupLoggers s).cfg = s.cfg ∧ ∀ k, ((cleanupLoggers s).th k).fail = (s.th k).fail := by
-  apply cleanupLoggers_pres' (fun x => x.cfg = s.cfg ∧ ∀ k, (x.th k).fail = (s.th k).fail)
+theorem cleanupLoggers_fail (inj : BSt → Nat → BSt) (hq : Quiet9 inj) (s : BSt) :
+    (cleanupLoggers inj s).cfg = s.cfg ∧ ∀ k, ((cleanupLoggers inj s).th k).fail = (s.th k).fail := by
+  apply cleanupLoggers_presL (fun x => x.cfg = s.cfg ∧ ∀ k, (x.th k).fail = (s.th k).fail) inj hq
   · intro x hx
     unfold allEmpty
     simp only []
@@ -599,12 +545,6 @@ theorem cleanupLoggers_fail (s : BSt) :
     refine ⟨by rw [← h1, h, h3]; exact hx.1, fun k => ?_⟩
     rw [← h2, h, h4]; exact hx.2 k
   · exact ⟨rfl, fun _ => rfl⟩
-
-theorem TInv_cleanupLoggers {s : BSt} (hs : TInv s) : TInv (cleanupLoggers s) :=
-  cleanupLoggers_pres' TInv (fun _ h => TInv_allEmpty h) (fun x y hx h => TInv_of_tview hx (by
-    have h1 : tview (stripL y) = tview y := rfl
-    have h2 : tview (stripL x) = tview x := rfl
-    rw [← h1, h, h2])) s hs
 
 theorem TInv_readPrepSt {s : BSt} (hs : TInv s) (i : Nat) : TInv (readPrepSt s i) := by
   unfold readPrepSt
@@ -704,7 +644,10 @@ theorem TCInv_closed : Closed TCInv where
   allEmpty := fun s h => ⟨CInv_closed.allEmpty s h.1, TInv_allEmpty h.2⟩
   hasPending := fun s h => ⟨CInv_closed.hasPending s h.1, TInv_hasPending h.2⟩
   cleanupContexts := fun s h => ⟨CInv_closed.cleanupContexts s h.1, TInv_cleanupContexts h.2⟩
-  cleanupLoggers := fun s h => ⟨CInv_closed.cleanupLoggers s h.1, TInv_cleanupLoggers h.2⟩
+  invFlag := fun s b h => ⟨CInv_closed.invFlag s b h.1, TInv_of_tview h.2 rfl⟩
+  erase := fun s i h hv he => ⟨CInv_closed.erase s i h.1 hv he, TInv_of_tview (TInv_allEmpty h.2) rfl⟩
+  reap := fun s sid h ha hr => ⟨CInv_closed.reap s sid h.1 ha hr, TInv_of_tview h.2 rfl⟩
+  flagRemoval := fun s f g h => ⟨CInv_closed.flagRemoval s f g h.1, TInv_of_tview h.2 rfl⟩
   flushSinks := fun s h => ⟨CInv_closed.flushSinks s h.1, TInv_of_tview h.2 (tview_of_stripOut (flushSinks_strip s))⟩
   readPrep := fun s i h => ⟨CInv_closed.readPrep s i h.1, TInv_readPrepSt h.2 i⟩
   commit := fun s i h => ⟨CInv_closed.commit s i h.1, TInv_commitSt h.2 i⟩
